@@ -121,6 +121,21 @@ def gen_cases(tier, seed):
             other['script'][rng.randint(0, 3)] = 1.5
         yield {'coros': coros,
                'dts': [rng.choice([0.5, 1]) for _ in range(10)]}
+    # dt values that are not dyadic (1/60, 0.1): the shared float timer
+    # rounds differently depending on what else is waiting (known finding);
+    # the twin with dt = 1/64 must be exact
+    for i in range(40 if tier == 'quick' else 16 * 40):
+        rng = random.Random(f'C08/float/{seed}/{tier}/{i}')
+        dyadic = i % 4 == 3
+        dt = 1 / 64 if dyadic else rng.choice([1 / 60, 0.1, 1 / 30, 0.01])
+        nframes = rng.randint(40, 90)
+        long_wait = {'start': 0, 'script': [rng.choice([3600, 1000.5])]}
+        sleeper = {'start': rng.randint(1, 10),
+                   'script': [rng.choice([0.5, 0.3, 0.25, 1.0])
+                              for _ in range(3)]}
+        steady = {'start': 0, 'script': [None] * nframes}
+        yield {'coros': [long_wait, sleeper, steady],
+               'dts': [dt] * nframes, 'nondyadic': not dyadic}
     n = 8000 if tier == 'quick' else 16 * 20000
     for i in range(n):
         yield gen_one(random.Random(f'C08/{seed}/{tier}/{i}'), tier)
@@ -338,4 +353,6 @@ def shrink(case):
 
 
 def classify(case, div):
+    if case.get('nondyadic') and div['kind'] in ('woke-early', 'woke-late'):
+        return 'float-timer-rounding'
     return None
